@@ -216,7 +216,8 @@ PROPS = {
               ("reuse-set-ir", lambda r: gen.gen_reuse(r, "set-ir"), 0.2),
               ("two-ir-forests", gen.gen_setops_two_ir, 0.4), ("recycle-cached", gen.gen_recycle_cached, 0.4)], quick=60, thorough=600,
         level_text="Proved: the generic apply recursion is pointwise for any scalar function under any mix of "
-                   "operand/result reduction rules, and its result is reduced. Tie: tables+dumps of "
+                   "operand/result reduction rules, and its result is reduced; two applications with the same pointwise result return the identical "
+                   "edge (commutativity, De Morgan, difference-via-complement as corollaries). Tie: tables+dumps of "
                    "UNION/INTERSECTION/DIFFERENCE/COMPLEMENT across forests; operands re-shown unchanged.",
         level_note=_MODELLED + "The library's terminal shortcuts and compute table are not mirrored (C07)."),
     "C05": dict(
